@@ -310,16 +310,35 @@ mod derived {
         Wrapped(InlineObj),
     }
 
+    pub type Label = Option<String>;
+
+    /// A type that is also a serde type, with the usual field attributes
+    #[derive(serde::Serialize, serde::Deserialize, CustomType)]
+    #[zlink(crate = "zlink_core")]
+    pub struct WithDefaults {
+        #[serde(default)]
+        pub count: i64,
+        /// may be left out
+        #[serde(default)]
+        pub label: Option<String>,
+        #[serde(default)]
+        pub aliased: Label,
+        #[serde(default)]
+        pub boxed: Box<Option<String>>,
+        #[serde(default, skip_serializing_if = "Vec::is_empty")]
+        pub list: Vec<f64>,
+    }
+
     pub fn interface() -> zlink_core::idl::Interface<'static> {
         use zlink_core::idl::{Field, Interface, Method};
         let f = |n: &'static str, t| Field::new_owned(n, t, vec![]);
         let methods = vec![Method::new_owned(
             "Use",
-            vec![f("d", <Documented as Type>::TYPE.clone()), f("o", <InlineObj as Type>::TYPE.clone()), f("p", <Plain as Type>::TYPE.clone())],
+            vec![f("d", <Documented as Type>::TYPE.clone()), f("o", <InlineObj as Type>::TYPE.clone()), f("p", <Plain as Type>::TYPE.clone()), f("w", <Option<WithDefaults> as Type>::TYPE.clone())],
             vec![f("r", <Option<Vec<InlineObj>> as Type>::TYPE.clone())],
             vec![],
         )];
-        let types = vec![<Documented as CustomType>::CUSTOM_TYPE.clone(), <Inner as CustomType>::CUSTOM_TYPE.clone(), <Plain as CustomType>::CUSTOM_TYPE.clone()];
+        let types = vec![<Documented as CustomType>::CUSTOM_TYPE.clone(), <Inner as CustomType>::CUSTOM_TYPE.clone(), <Plain as CustomType>::CUSTOM_TYPE.clone(), <WithDefaults as CustomType>::CUSTOM_TYPE.clone()];
         let errors = <Errs as ReplyError>::VARIANTS.iter().map(|e| (*e).clone()).collect();
         Interface::new_owned("org.example.derived-docs", methods, types, errors, vec![])
     }
